@@ -28,9 +28,9 @@ type Ctx struct {
 
 	Stats *Stats
 	// Violations found by this run (after known-finding filtering).
-	Violations []Violation
-	Known      []string // KNOWN-FINDING lines to print
-	Notes      []string
+	Violations   []Violation
+	Known        []string // KNOWN-FINDING lines to print
+	Notes        []string
 	Inconclusive string // non-empty => exit 2
 }
 
@@ -49,9 +49,9 @@ func (c *Ctx) Pick(q, t int) int {
 // the generators.
 type Violation struct {
 	Property string `json:"property"`
-	Kind     string `json:"kind"`           // replay kind: which evaluator re-runs it
-	What     string `json:"what"`           // human readable description of the mismatch
-	Case     any    `json:"case"`           // materialised case (kind specific)
+	Kind     string `json:"kind"`            // replay kind: which evaluator re-runs it
+	What     string `json:"what"`            // human readable description of the mismatch
+	Case     any    `json:"case"`            // materialised case (kind specific)
 	Shape    string `json:"shape,omitempty"` // known-finding shape key, if any
 	Path     string `json:"-"`
 }
@@ -92,7 +92,7 @@ func (s *Stats) Nontrivial(key uint64) bool {
 	return true
 }
 
-func (s *Stats) Class(name string) { s.Classes[name]++ }
+func (s *Stats) Class(name string)           { s.Classes[name]++ }
 func (s *Stats) ClassN(name string, n int64) { s.Classes[name] += n }
 
 // Sample keeps the first few samples offered (deterministic given deterministic order).
